@@ -133,6 +133,8 @@ class Interp:
         arr = self.make_array(st)
         if st.get("readonly"):
             arr.flags.writeable = False
+        if st.get("compact"):
+            arr = np.array(arr)   # same compact copy that tensor() would have made
         if kind == "array" or self.backend == "np":
             if self.backend == "np" and kind == "tensor" and not st.get("nocopy"):
                 arr = np.array(arr)  # tensor() copies (order K)
